@@ -339,6 +339,8 @@ def build_ops(fam, mpc, m):
                     + ('' if not fam.is_id(c[0]) else ':identity'))
             # public base with a secure INTEGER exponent and m > 1: one input class (the outcome depends on the shares, not on x)
             pcls = (lambda c: 'm>1') if tag == 'Z' and m > 1 else ecls
+            # secret base with a field exponent and m > 1 goes through runtime.to_bits on a shared field element: one class
+            scls = (lambda c: 'm>1') if tag == 'F' and m > 1 else ecls
             tn = {'F': 'field exponent', 'Z': 'secint exponent'}[tag]
             add(f'reps_pb:{tag}:{e}', 1, lambda a, x=x: S.repeat(a, x()), pb_ref, cls=pcls, site=f'repeat(public base, {tn})')
             add(f'reppub:{tag}:{e}', 1, lambda a, x=x: S.repeat_public(a, x()), pb_ref, mode='public', cls=pcls,
@@ -353,10 +355,10 @@ def build_ops(fam, mpc, m):
                 if fam.big and tag == 'F' and e not in (0, 2, -1):
                     continue          # one 250-bit ladder costs ~500 secure curve additions
                 for v in (('c', 'i') if e in (2, -1) else ('c',)):
-                    add(f'reps_sb:{tag}:{e}:{v}', 1, lambda a, x=x, s=sec(v): S.repeat(s(a), x()), sb_ref, cls=ecls,
+                    add(f'reps_sb:{tag}:{e}:{v}', 1, lambda a, x=x, s=sec(v): S.repeat(s(a), x()), sb_ref, cls=scls,
                         site=f'repeat(secret base, {tn})')
                 if e == 2 and tag == 'F':
-                    add(f'xor_sb:{tag}:{e}', 1, lambda a, x=x: s(a) ^ x(), sb_ref, cls=ecls, site=f'[a]^[x] ({tn})')
+                    add(f'xor_sb:{tag}:{e}', 1, lambda a, x=x: s(a) ^ x(), sb_ref, cls=scls, site=f'[a]^[x] ({tn})')
     return ops
 
 
@@ -396,7 +398,8 @@ def run_sp(job):
     tier = job['tier']
     cfg = f'sp/k{K_SP}'
     red = set(fam.mpdom)
-    dom = fam.dom if job.get('dom', 'full') == 'full' else fam.mpdom
+    dom = job.get('vals') or (fam.dom if job.get('dom', 'full') == 'full' else fam.mpdom)
+    dom = [tuple(v) if isinstance(v, list) else v for v in dom]
     modes = job.get('modes', ('seeded', 'zero', 'max'))
     points = job.get('points', 4)
     names = select(sorted(ops), job.get('ops'), job.get('skip'))
@@ -492,14 +495,14 @@ def mp_program(spec, m):
     return program
 
 
-def mp_cases(fam, m, names=None, skip=None):
+def mp_cases(fam, m, names=None, skip=None, dom=None):
     ops = build_ops(fam, exact.Dummy(), m)
     cases = []
     for name in sorted(ops):
         if not select([name], names, skip):
             continue
         op = ops[name]
-        for vals in itertools.product(fam.mpdom, repeat=op.arity):
+        for vals in itertools.product(dom or fam.mpdom, repeat=op.arity):
             if op.ref(*[fam.elem(v) for v in vals]) is not None:
                 cases.append((name, vals))
     return cases
@@ -514,7 +517,7 @@ def run_mp(job):
     k = exact.sec_param_for(m, t, 4)
     world = exact.make_world(m, t, no_prss, k)
     seams = world.script_seams
-    cases = mp_cases(rfam, m, job.get('ops'), job.get('skip'))
+    cases = mp_cases(rfam, m, job.get('ops'), job.get('skip'), job.get('vals'))
     mine = cases[job['part']::job['parts']]
     cfg = f"mp/m{m}t{t}{'-noprss' if no_prss else ''}/k{k}"
     program = mp_program(tuple(job['spec']), m)
